@@ -45,6 +45,11 @@ _TS_CONSTS = ("const TIMEOUT_MS = 30000;\nconst PI_APPROX = 3.14159;\nconst LIMI
               "export function wait(q: number): number {\n  return q * 250;\n}\n")
 _TS_DUP_CONST = "export const MAX_RETRY_COUNT = 17;\nexport function first() { return 1; }\n"
 AT_LIMIT = {
+    # locals belong to their function: giving the second function's accumulator the name used in the first changes nothing
+    "concat-two-functions.py": ("python", "def one(xs):\n    out = ''\n    for x in xs:\n        out += str(x)\n    return out\n\n\n"
+                                          "def two(pairs):\n    buf = '['\n    for i, x in enumerate(pairs):\n        buf += str(x) * i\n    return buf + ']'\n", None),
+    "concat-two-functions.ts": ("typescript", "function one(xs: string[]): string {\n  let out = '';\n  for (const x of xs) {\n    out += x;\n  }\n  return out;\n}\n"
+                                              "function two(pairs: string[]): string {\n  let buf = '[';\n  for (let i = 0; i < pairs.length; i++) {\n    buf += pairs[i];\n  }\n  return buf + ']';\n}\n", None),
     # one clone whose source is used afterwards (fine) and one whose source is not (unnecessary-clone): names do not matter
     "clone-kept.rs": ("rust", "fn f(data: Vec<u8>, spare: Vec<u8>) -> usize {\n    let copy = data.clone();\n    consume(copy);\n"
                               "    let extra = spare.clone();\n    consume(extra);\n    data.len()\n}\n", None),
@@ -72,6 +77,7 @@ RENAMES = {
     "unwrap.rs": (("v", "parsed"), ("s", "text")), "cloney.rs": (("it", "entry"), ("out", "result")), "blocking.rs": (("s", "body"),),
     "lbyl.py": (("d", "mapping"), ("k", "key")), "concat.py": (("it", "piece"),), "regexloop.py": (("it", "entry"), ("out", "result")),
     "clone-kept.rs": (("data", "request"), ("spare", "x"), ("copy", "rx")),
+    "concat-two-functions.py": (("buf", "out"),), "concat-two-functions.ts": (("buf", "out"),),
     "pipeline.py": (("item", "entry"), ("out", "kept")), "srp-at-loc-limit.py": (), "cqs.py": (("value", "fetched"),),
 }
 
@@ -220,6 +226,7 @@ def h_edits(ctx):
     ka = _keys(after, main, shift, with_col)
     if edit == "rename-locals":       # messages that quote source text quote the new names
         ka = Counter({(k[0], k[1], k[2], k[3], _norm_names(k[4], used_table)): c for k, c in ka.items()})
+        kb = Counter({(k[0], k[1], k[2], k[3], _norm_names(k[4], used_table)): c for k, c in kb.items()})    # a new name may be in use elsewhere already
     ctx.note("trigger", tname)
     ctx.note("edit", edit)
     ctx.cover("has-findings" if kb else "no-findings")
